@@ -5,7 +5,7 @@ type nat =
 | O
 | S of nat
 
-val fst : ('a1 * 'a2) -> 'a1
+val option_map : ('a1 -> 'a2) -> 'a1 option -> 'a2 option
 
 val snd : ('a1 * 'a2) -> 'a2
 
@@ -20,12 +20,6 @@ type comparison =
 
 val compOpp : comparison -> comparison
 
-val add : nat -> nat -> nat
-
-val sub : nat -> nat -> nat
-
-val eqb : bool -> bool -> bool
-
 module Nat :
  sig
   val eqb : nat -> nat -> bool
@@ -34,6 +28,20 @@ module Nat :
 
   val ltb : nat -> nat -> bool
  end
+
+val nth : nat -> 'a1 list -> 'a1 -> 'a1
+
+val concat : 'a1 list list -> 'a1 list
+
+val map : ('a1 -> 'a2) -> 'a1 list -> 'a2 list
+
+val fold_left : ('a1 -> 'a2 -> 'a1) -> 'a2 list -> 'a1 -> 'a1
+
+val existsb : ('a1 -> bool) -> 'a1 list -> bool
+
+val forallb : ('a1 -> bool) -> 'a1 list -> bool
+
+val filter : ('a1 -> bool) -> 'a1 list -> 'a1 list
 
 type positive =
 | XI of positive
@@ -51,14 +59,6 @@ type z =
 
 module Pos :
  sig
-  type mask =
-  | IsNul
-  | IsPos of positive
-  | IsNeg
- end
-
-module Coq_Pos :
- sig
   val succ : positive -> positive
 
   val add : positive -> positive -> positive
@@ -67,84 +67,21 @@ module Coq_Pos :
 
   val pred_double : positive -> positive
 
-  type mask = Pos.mask =
-  | IsNul
-  | IsPos of positive
-  | IsNeg
-
-  val succ_double_mask : mask -> mask
-
-  val double_mask : mask -> mask
-
-  val double_pred_mask : positive -> mask
-
-  val sub_mask : positive -> positive -> mask
-
-  val sub_mask_carry : positive -> positive -> mask
-
-  val mul : positive -> positive -> positive
-
-  val size : positive -> positive
-
   val compare_cont : comparison -> positive -> positive -> comparison
 
   val compare : positive -> positive -> comparison
 
   val eqb : positive -> positive -> bool
-
-  val iter_op : ('a1 -> 'a1 -> 'a1) -> positive -> 'a1 -> 'a1
-
-  val to_nat : positive -> nat
  end
 
 module N :
  sig
-  val succ_double : n -> n
-
-  val double : n -> n
-
-  val add : n -> n -> n
-
-  val sub : n -> n -> n
-
-  val mul : n -> n -> n
-
   val compare : n -> n -> comparison
 
   val eqb : n -> n -> bool
 
-  val leb : n -> n -> bool
-
   val ltb : n -> n -> bool
-
-  val log2 : n -> n
-
-  val pos_div_eucl : positive -> n -> n * n
-
-  val div_eucl : n -> n -> n * n
-
-  val div : n -> n -> n
-
-  val modulo : n -> n -> n
-
-  val to_nat : n -> nat
  end
-
-val rev : 'a1 list -> 'a1 list
-
-val concat : 'a1 list list -> 'a1 list
-
-val map : ('a1 -> 'a2) -> 'a1 list -> 'a2 list
-
-val flat_map : ('a1 -> 'a2 list) -> 'a1 list -> 'a2 list
-
-val forallb : ('a1 -> bool) -> 'a1 list -> bool
-
-val firstn : nat -> 'a1 list -> 'a1 list
-
-val skipn : nat -> 'a1 list -> 'a1 list
-
-val repeat : 'a1 -> nat -> 'a1 list
 
 module Z :
  sig
@@ -158,218 +95,89 @@ module Z :
 
   val add : z -> z -> z
 
-  val opp : z -> z
-
-  val mul : z -> z -> z
-
   val compare : z -> z -> comparison
 
-  val leb : z -> z -> bool
-
-  val eqb : z -> z -> bool
-
-  val of_N : n -> z
+  val ltb : z -> z -> bool
  end
-
-type ascii =
-| Ascii of bool * bool * bool * bool * bool * bool * bool * bool
-
-val eqb0 : ascii -> ascii -> bool
-
-type string =
-| EmptyString
-| String of ascii * string
-
-val eqb1 : string -> string -> bool
 
 type bytes = n list
 
-val sp : n
-
-val zero : n
-
 val bytes_eqb : bytes -> bytes -> bool
 
-val rune_error : n
+type entry = { e_trace : bytes; e_core : bytes; e_amount : z; e_debit : 
+               bool; e_addenda : n; e_cat : n }
 
-val cont : n -> bool
+type kind =
+| KStd
+| KIAT
 
-val seq_size : n -> nat
+val kind_eqb : kind -> kind -> bool
 
-val second_ok : n -> n -> bool
+type batch = { b_kind : kind; b_sig : bytes; b_num : z;
+               b_entries : entry list; b_adv : entry list }
 
-val chunks : bytes -> (n * bytes) list
+val lex_ltb : bytes -> bytes -> bool
 
-val runes : bytes -> n list
+val insert_by : ('a1 -> 'a1 -> bool) -> 'a1 -> 'a1 list -> 'a1 list
 
-val rune_count : bytes -> nat
+val sort_by : ('a1 -> 'a1 -> bool) -> 'a1 list -> 'a1 list
 
-val encode_rune : n -> bytes
+val has_trace : bytes -> batch -> bool
 
-val encode : n list -> bytes
+val can_merge : batch -> batch -> bool
 
-type seg =
-| SLit of bytes
-| SAlpha of string * nat
-| SNum of string * nat
-| SStr of string * nat
-| SRaw of string
-| SItoa of string
-| SCustom of string * string
-| SUnknown of string
+val consume : batch -> batch -> batch
 
-type cut = { c_lo : nat; c_hi : nat; c_field : string; c_conv : string list;
-             c_const : bytes option }
+val copy : batch -> batch
 
-val mkcut : nat -> nat -> string -> string list -> cut
+type groups = (bytes * batch list) list
 
-val mkconst : string -> bytes -> cut
+val merge_into : batch -> batch list -> batch list option
 
-type indexing =
-| IRune
-| IByte
+val place : batch -> batch list -> batch list
 
-type layout = { l_name : string; l_ix : indexing; l_segs : seg list;
-                l_cuts : cut list }
+val step : batch -> groups -> groups
 
-type value =
-| VS of bytes
-| VI of z
+val run : batch list -> groups
 
-type recval = (string * value) list
+val all_batches : groups -> batch list
 
-val lookup : recval -> string -> value option
+val trace_ltb : entry -> entry -> bool
 
-val gets : recval -> string -> bytes
+val num_ltb : batch -> batch -> bool
 
-val geti : recval -> string -> z
+val count_ltb : batch -> batch -> bool
 
-val spaces : nat -> bytes
+val sort_entries : batch -> batch
 
-val zeros : nat -> bytes
+val is_std : batch -> bool
 
-val is_space : n -> bool
+val is_iat : batch -> bool
 
-val drop_space : (n * bytes) list -> (n * bytes) list
+val renumber : z -> batch list -> batch list
 
-val trim : bytes -> bytes
+val finalize : batch list -> batch list
 
-val rune_prefix : nat -> bytes -> bytes
+val cat_noc : n
 
-val alphaField : bytes -> nat -> bytes
+val category_ok : batch -> bool
 
-val stringField : bytes -> nat -> bytes
+val checked : batch list -> batch list option
 
-val digits_fuel : nat -> n -> bytes -> bytes
+val flatten_stable : batch list -> batch list
 
-val digits : n -> bytes
+val sorted_countb : batch list -> bool
 
-val itoa : z -> bytes
+val nodupb : nat list -> bool
 
-val numericField : z -> nat -> bytes
+val perm_hintb : nat -> nat list -> bool
 
-val is_digit : n -> bool
+val dummy_batch : batch
 
-val digits_val : bytes -> z -> z
+val apply_hint : batch list -> nat list -> batch list
 
-val max_int64 : z
+val flatten_hint : batch list -> nat list -> batch list option
 
-val min_int64 : z
+val flatten_stable_checked : batch list -> batch list option
 
-val atoi : bytes -> z
-
-val atoi_opt : bytes -> z option
-
-val parseNumField : bytes -> z
-
-val aUTOENROLL : bytes
-
-val eNR : bytes
-
-val render_custom : string -> recval -> bytes option
-
-val render_seg : recval -> seg -> bytes
-
-val render : layout -> recval -> bytes
-
-val units : indexing -> bytes -> bytes list
-
-val sub0 : bytes list -> nat -> nat -> bytes
-
-val two : n -> n -> n
-
-val valid_date : bytes -> bool
-
-val valid_time : bytes -> bool
-
-val validateSettlementDate : bytes -> bytes
-
-val ten_zeros : bytes
-
-val trimRoutingNumberLeadingZero : bytes -> bytes
-
-val conv_str : string -> bytes -> bytes option
-
-val conv_chain : string list -> bytes -> bytes option
-
-val conv_value : string list -> bytes -> value option
-
-val parse_cut : bytes list -> cut -> (string * value) list
-
-val parse : layout -> bytes -> recval
-
-val overlay : recval -> recval -> recval
-
-val l_ADVBatchControl : layout
-
-val l_ADVEntryDetail : layout
-
-val l_ADVFileControl : layout
-
-val l_Addenda02 : layout
-
-val l_Addenda05 : layout
-
-val l_Addenda10 : layout
-
-val l_Addenda11 : layout
-
-val l_Addenda12 : layout
-
-val l_Addenda13 : layout
-
-val l_Addenda14 : layout
-
-val l_Addenda15 : layout
-
-val l_Addenda16 : layout
-
-val l_Addenda17 : layout
-
-val l_Addenda18 : layout
-
-val l_Addenda98 : layout
-
-val l_Addenda98Refused : layout
-
-val l_Addenda99 : layout
-
-val l_Addenda99Contested : layout
-
-val l_Addenda99Dishonored : layout
-
-val l_BatchControl : layout
-
-val l_BatchHeader : layout
-
-val l_EntryDetail : layout
-
-val l_FileControl : layout
-
-val l_FileHeader : layout
-
-val l_IATBatchHeader : layout
-
-val l_IATEntryDetail : layout
-
-val all_layouts : layout list
+val flatten_hint_checked : batch list -> nat list -> batch list option option
